@@ -114,11 +114,11 @@ def materialize(texts, geometry=None):
 
 
 def ref_list(src):
-    """Reference on a concrete .js file: /* */ comments, tags, stack pairing -> [(name, line, col)] sorted."""
+    """Reference on a concrete .js file: /* */ and // comments, tags, stack pairing -> [(name, line, col)] sorted."""
     import re
     s = src.decode('latin1')
     events = []
-    for cm in re.finditer(r'/\*.*?\*/', s, re.S):
+    for cm in re.finditer(r'/\*.*?\*/|//[^\n]*', s, re.S):
         for tm in re.finditer(r'<block(?: name="(\w+)")?>|</\s*block\s*>', cm.group(0)):
             off = cm.start() + tm.start()
             events.append((off, None if tm.group(0).startswith('</') else (tm.group(1) or '(unnamed)')))
